@@ -2,6 +2,7 @@ package racesim
 
 import (
 	"bytes"
+	"errors"
 	"fmt"
 	"github.com/vulcand/oxy/v2/internal/holsterv4/collections"
 	"io"
@@ -73,6 +74,10 @@ func (l *lockedWriter) Write(p []byte) (int, error) {
 	}
 	return l.buf.Write(p)
 }
+
+type failingEffect struct{}
+
+func (failingEffect) Exec() error { return errors.New("simulated: webhook unreachable") }
 
 type op func()
 
@@ -261,7 +266,9 @@ func buildTarget(rt *rapid.T) target {
 		}}
 	case "cbreaker":
 		cb, err := cbreaker.New(bottom, "NetworkErrorRatio() > 0.3 || ResponseCodeRatio(500, 600, 0, 600) > 0.5 || LatencyAtQuantileMS(50.0) > 1000",
-			cbreaker.FallbackDuration(2*time.Millisecond), cbreaker.RecoveryDuration(3*time.Millisecond), cbreaker.CheckPeriod(time.Millisecond), cbreaker.Logger(simkit.SlowLogger{}))
+			cbreaker.FallbackDuration(2*time.Millisecond), cbreaker.RecoveryDuration(3*time.Millisecond), cbreaker.CheckPeriod(time.Millisecond), cbreaker.Logger(simkit.SlowLogger{}),
+			// side effects that fail: the breaker reports the failure from the goroutine it runs them in
+			cbreaker.OnTripped(failingEffect{}), cbreaker.OnStandby(failingEffect{}))
 		must(err)
 		return target{name: kind, h: cb, breaks: true, draw: func(rt *rapid.T) op { return serve(cb, drawSrc(rt), drawCode(rt)) }}
 	case "rtmetrics":
